@@ -325,7 +325,7 @@ META = dict(
         "rational coefficients on the edge-padded signal, for every order/width/padding mode and (dim, time_dim, concatenate) layout, within 1e-5*(1+sum|x|).  "
         "time_distributed_return vs. R_t = r_t + gamma*R_(t+1), exact for dyadic gamma, with tolerance otherwise."),
     bounds=dict(quick="MVN: 4 frames x 2 coefficients, partitions (4),(1,3),(2,2),(1,1,2) in two orders, bessel on/off; deltas: T=4,F=2, order 0..2, width 1..2, three padding modes, four layouts; returns: T=3,N=2, gamma in {0,1/2,1,2,0.9}",
-                thorough="MVN: 5 frames in one or two parts, 3-4 frames in up to three parts, rotations; deltas: T=5, all (dim,time_dim,concatenate) for (order,width) in {(1,1),(2,2)}, three layouts otherwise; returns: T=4,N=2"),
+                thorough="MVN: 2-4 frames in every composition and rotation (five frames: solver unknown, measured); deltas: T=5, all (dim,time_dim,concatenate) for (order,width) in {(1,1),(2,2)}, three layouts otherwise; returns: T=4,N=2"),
     assumptions=["inputs on the quarter grid; arithmetic over the reals (float rounding inside the stated tolerances only)", "sqrt uninterpreted with sqrt(v)^2=v, sqrt>=0",
                  "delta filters are the concrete float32 tensors the library builds (converted exactly to rationals)"],
     outside=["unit variance after normalisation (needs sqrt identities beyond the contract)", "the MVN command-line accumulation over files", "reflect padding narrower than the required context"],
@@ -347,7 +347,7 @@ def tasks(tier):
     ts = []
     q = tier == "quick"
     # Bessel's factor count/(count-1) is folded in double precision by the library: exact only for T in {2,3,5}
-    parts_list = [[4], [1, 3], [2, 2], [1, 1, 2], [3], [1, 2], [1, 1, 1]] if q else [p for p in _compositions(5) if len(p) <= 2] + [[4], [1, 3], [2, 2], [1, 1, 2], [3], [1, 2], [1, 1, 1], [1, 2, 2]]
+    parts_list = [[4], [1, 3], [2, 2], [1, 1, 2], [3], [1, 2], [1, 1, 1]] if q else [p for p in _compositions(4)] + [p for p in _compositions(3)] + [[2], [1, 1]]   # five frames: z3 answers unknown on the variance identity (measured)
     for parts in parts_list:
         orders = [list(range(len(parts))), list(reversed(range(len(parts))))] if len(parts) > 1 else [[0]]
         if not q and len(parts) > 2:
